@@ -8,6 +8,8 @@
   factor as given), monotonicity of the salt-solution viscosity/density, the `brentq` molarity→molality conversion.
 -/
 import Verif.Lemmas.C20
+import Verif.Lemmas.C20D
+import Verif.Lemmas.C20Stimson
 
 namespace Verif.C20
 open Verif Filter Topology MeasureTheory Set
@@ -493,5 +495,657 @@ theorem bisect_brackets_sign_change (g : ℝ → ℝ) (k : ℕ) (lo hi : ℝ) (h
 example : ∃ a b, (0:ℝ) ≤ a ∧ a ≤ b ∧ b ≤ 6 ∧ b - a = (6 - 0) / 2 ^ 100 ∧ 0 ≤ (fun m => 3 - m) a ∧
     (fun m => 3 - m) b ≤ 0 ∧ bisect (fun m : ℝ => 3 - m) 100 0 6 = (a + b) / 2 :=
   bisect_brackets_sign_change _ 100 0 6 (by norm_num) (by norm_num) (by norm_num)
+
+/-! ## Deepening round D -/
+
+/-! ### NaCl solutions (Kestin–Khalifa–Correia): monotone in the concentration, joining pure water continuously -/
+
+/-- Kestin Eq. 2–5: the zero-pressure viscosity of the solution increases strictly with the molality, over the whole
+    validity range of the model (20–150 °C, 0–6 mol/kg). -/
+theorem salt_zero_pressure_viscosity_increases_with_concentration (t m₁ m₂ : ℝ) (ht0 : 20 ≤ t) (ht1 : t ≤ 150)
+    (h0 : 0 ≤ m₁) (h12 : m₁ < m₂) (h6 : m₂ ≤ 6) : zeroPressureViscosity t m₁ < zeroPressureViscosity t m₂ := by
+  rw [zpv_real, zpv_real]
+  obtain ⟨q0, q1⟩ := waterExp_bounds t ht0 ht1
+  have hE := saltExp_strictMono (waterExp t) m₁ m₂ q0 q1 h0 h12 h6
+  exact mul_lt_mul_of_pos_left ((Real.rpow_lt_rpow_left_iff (by norm_num : (1:ℝ) < 10)).mpr hE) (muW_pos t)
+
+example : zeroPressureViscosity (25:ℝ) 0 < zeroPressureViscosity (25:ℝ) 1 :=
+  salt_zero_pressure_viscosity_increases_with_concentration 25 0 1 (by norm_num) (by norm_num) (by norm_num)
+    (by norm_num) (by norm_num)
+
+/-- The viscosity `viscosity_of_water` answers for a salt solution (Eq. 1: zero-pressure value × pressure correction,
+    in Pa·s) is positive and increases strictly with the molality at every temperature 20–150 °C and pressure 0–35 MPa:
+    the zero-pressure value grows by ≥ 6.6 % per mol/kg, the pressure coefficient moves by ≤ 0.625 per mol/kg. -/
+theorem salt_viscosity_increases_with_concentration (t p m₁ m₂ : ℝ) (ht0 : 20 ≤ t) (ht1 : t ≤ 150) (hp0 : 0 ≤ p)
+    (hp1 : p ≤ 35) (h0 : 0 ≤ m₁) (h12 : m₁ < m₂) (h6 : m₂ ≤ 6) :
+    saltViscosity t m₁ p < saltViscosity t m₂ p :=
+  saltViscosity_strictMono t p m₁ m₂ ht0 ht1 hp0 hp1 h0 h12 h6
+
+example : saltViscosity (25:ℝ) 0 0.101325 < saltViscosity (25:ℝ) 1 0.101325 :=
+  salt_viscosity_increases_with_concentration 25 0.101325 0 1 (by norm_num) (by norm_num) (by norm_num) (by norm_num)
+    (by norm_num) (by norm_num) (by norm_num)
+
+/-- The density of the solution is positive and increases strictly with the molality (the specific volume of the
+    correlation is a quadratic in the salt mass fraction whose derivative is negative on the validity range). -/
+theorem salt_density_increases_with_concentration (t p m₁ m₂ : ℝ) (ht0 : 20 ≤ t) (ht1 : t ≤ 150) (hp0 : 0 ≤ p)
+    (hp1 : p ≤ 35) (h0 : 0 ≤ m₁) (h12 : m₁ < m₂) (h6 : m₂ ≤ 6) :
+    0 < saltDensity t m₁ p ∧ saltDensity t m₁ p < saltDensity t m₂ p := by
+  rw [saltDensity_real, saltDensity_real]
+  have k0 : (293.15:ℝ) ≤ t + 273.15 := by linarith
+  have k1 : t + 273.15 ≤ (423.15:ℝ) := by linarith
+  obtain ⟨a0, a1⟩ := wfrac_bounds m₁ h0 (by linarith)
+  obtain ⟨b0, b1⟩ := wfrac_bounds m₂ (by linarith) h6
+  have hw := wfrac_strictMono m₁ m₂ h0 h12
+  have p1 := specVol_pos (t + 273.15) p (wfrac m₁) k0 k1 hp0 hp1 a0 a1
+  have p2 := specVol_pos (t + 273.15) p (wfrac m₂) k0 k1 hp0 hp1 b0 b1
+  have hlt := specVol_strictAnti (t + 273.15) p (wfrac m₁) (wfrac m₂) k0 k1 hp0 hp1 a0 hw b1
+  exact ⟨one_div_pos.mpr (by linarith), one_div_lt_one_div_of_lt (by linarith) hlt⟩
+
+example : saltDensity (25:ℝ) 0 0.101325 < saltDensity (25:ℝ) 1 0.101325 :=
+  (salt_density_increases_with_concentration 25 0.101325 0 1 (by norm_num) (by norm_num) (by norm_num) (by norm_num)
+    (by norm_num) (by norm_num) (by norm_num)).2
+
+
+/-- The salt models join the pure-water values CONTINUOUSLY: as the molality tends to zero the viscosity tends to the
+    model's own water term `μ_w(t)(1 + β_w(t) p/1000)` and the density to its value at `m = 0`, which is the pure-water
+    part of the correlation (no mass-fraction term). -/
+theorem salt_models_join_water_continuously (t p : ℝ) (ht0 : 20 ≤ t) (ht1 : t ≤ 150) (hp0 : 0 ≤ p) (hp1 : p ≤ 35) :
+    Tendsto (fun m => saltViscosity t m p) (𝓝 0) (𝓝 (1e-6 * muW t * (1 + betaW t * p / 1000))) ∧
+    Tendsto (fun m => saltDensity t m p) (𝓝 0) (𝓝 (saltDensity t 0 p)) ∧
+    saltDensity t 0 p = 1 / (dT1 (t + 273.15) - dT2 (t + 273.15) * p - dT3 (t + 273.15) * p ^ 2
+      - 0.5 * dT8 (t + 273.15) * p ^ 2) := by
+  refine ⟨?_, ?_, ?_⟩
+  · have h := (saltViscosity_continuous t p).tendsto 0
+    rwa [(salt_joins_water t p).2.2] at h
+  · have k0 : (293.15:ℝ) ≤ t + 273.15 := by linarith
+    have k1 : t + 273.15 ≤ (423.15:ℝ) := by linarith
+    have hpos := specVol_pos (t + 273.15) p (wfrac 0) k0 k1 hp0 hp1 (by rw [wfrac_zero]) (by rw [wfrac_zero]; norm_num)
+    have hc : ContinuousAt (fun m => 1 / specVol (t + 273.15) p (wfrac m)) 0 := by
+      apply ContinuousAt.div continuousAt_const _ (by linarith)
+      have hw := wfrac_continuous
+      unfold specVol
+      fun_prop
+    have := hc.tendsto
+    simp only [← saltDensity_real] at this
+    exact this
+  · rw [saltDensity_real, wfrac_zero]; unfold specVol; ring_nf
+
+example : Tendsto (fun m => saltDensity (25:ℝ) m 0.101325) (𝓝 0) (𝓝 (saltDensity 25 0 0.101325)) :=
+  (salt_models_join_water_continuously 25 0.101325 (by norm_num) (by norm_num) (by norm_num) (by norm_num)).2.1
+
+
+/-! ### The hydrodynamic model for small beads -/
+
+/-- With the bead's own Stokes drag `γ₀ = 3πη·(2R)` the characteristic frequencies `f_ν = η/(πρR²)` and
+    `f_m = 9η/(4πρ_bead R²)` grow without bound as `R → 0⁺`, and the hydrodynamically correct spectrum (bulk) tends
+    to the Lorentzian at EVERY frequency `f ≥ 0`: their ratio → 1. -/
+theorem hydro_bulk_small_bead_limit (f fc D eta rhoS rhoB : ℝ) (hf : 0 ≤ f) (hfc : 0 < fc) (hD : D ≠ 0)
+    (heta : 0 < eta) (hrho : 0 < rhoS) :
+    Tendsto (fun R => hydroPsd f fc D (sphereFriction eta (2 * R)) R rhoS rhoB none / lorentzian f fc D)
+      (𝓝[>] 0) (𝓝 1) := by
+  have hpi := Real.pi_pos
+  -- r(R) = f / f_ν and f / f_m as functions of the radius
+  let r : ℝ → ℝ := fun R => f * (Real.pi * rhoS * R ^ 2) / eta
+  let q : ℝ → ℝ := fun R => f * (4 * Real.pi * R ^ 2 * rhoB) / (9 * eta)
+  let H : ℝ → ℝ := fun R => D / Real.pi ^ 2 * (1 + Real.sqrt (r R)) /
+        ((fc + f * ((-Real.sqrt (r R) - 2 / 9 * (r R)) - q R)) ^ 2 + (f * (1 + Real.sqrt (r R))) ^ 2)
+  have hL0 : lorentzian f fc D ≠ 0 := by
+    rw [lorentzian_real]
+    have : 0 < f ^ 2 + fc ^ 2 := by positivity
+    positivity
+  have hH : ContinuousAt H 0 := by
+    apply ContinuousAt.div
+    · fun_prop
+    · fun_prop
+    · simp only [H, r, q]; norm_num; positivity
+  have hHL : ContinuousAt (fun R => H R / lorentzian f fc D) 0 := hH.div continuousAt_const hL0
+  have e : H 0 / lorentzian f fc D = 1 := by
+    rw [lorentzian_real]
+    simp only [H, r, q]
+    norm_num
+    have : f ^ 2 + fc ^ 2 ≠ 0 := by positivity
+    field_simp
+    ring
+  have h0 : Tendsto (fun R => H R / lorentzian f fc D) (𝓝[>] 0) (𝓝 1) := by
+    have := hHL.tendsto.mono_left (nhdsWithin_le_nhds (s := Set.Ioi 0))
+    rwa [e] at this
+  apply h0.congr'
+  filter_upwards [self_mem_nhdsWithin] with R hR
+  have hR' : 0 < R := hR
+  have hnu : 0 < frequencyNu (sphereFriction eta (2 * R)) rhoS R := by
+    rw [frequencyNu_stokes eta rhoS R heta hrho hR']; positivity
+  rw [hydroPsd_bulk _ _ _ _ _ _ _ hf hnu, frequencyNu_stokes eta rhoS R heta hrho hR', frequencyM_stokes eta rhoB R hR']
+  simp only [H, r, q]
+  congr 3
+  all_goals (try field_simp)
+
+
+example : Tendsto (fun R => hydroPsd 1000 500 2 (sphereFriction (1e-3:ℝ) (2 * R)) R 997 1060 none / lorentzian 1000 500 2)
+    (𝓝[>] 0) (𝓝 1) :=
+  hydro_bulk_small_bead_limit _ _ _ _ _ _ (by norm_num) (by norm_num) (by norm_num) (by norm_num) (by norm_num)
+
+/-! ### The constructor establishes the hypotheses of the wall-correction theorems -/
+
+/-- What `PassiveCalibrationModel.__init__` accepts near a surface (no hydrodynamic correction): the validation chain
+    ESTABLISHES the hypotheses of `faxen_gt_one` / `brenner_gt_one` (`d ≥ 0.01 µm`, `l ≥ d/2`; a viscosity above
+    0.0003 Pa·s or the positive water viscosity at `5 < T < 90`), so the model it returns has a wall correction above
+    one and reports a drag above the bulk Stokes drag `3πηd` (for the axial factor: off contact, where it is singular). -/
+theorem passive_init_wall_drag_exceeds_bulk (c : PassiveCfg ℝ) (m : Passive ℝ) (l : ℝ) (h : Passive.init c = .ok m)
+    (hh : c.hydro = false) (hl : c.distance = some l) (hax : c.axial = true → c.diameter / 2 < l) :
+    1 < m.dragCorrection ∧ 0 < m.dragCoeff ∧ m.dragCoeff < m.drag ∧
+      m.dragCoeff = 3 * Real.pi * m.viscosity * (c.diameter * 1e-6) := by
+  obtain ⟨d, visc, T, hydro, dist, rhoS, rhoB, fast, ax⟩ := c
+  simp only at hh hl hax ⊢
+  subst hh hl
+  unfold Passive.init at h
+  simp only [RealLike.lt, RealLike.le, Bool.false_eq_true, if_false, decide_eq_true_eq] at h
+  -- the viscosity the model uses is positive in both branches of `viscosity if viscosity is not None else …`
+  have key : ∀ η : ℝ, 0 < η → (0.01:ℝ) ≤ d → d / 2 ≤ l →
+      (if isZero l = true then (1.0:ℝ) else if ax = true then brenner (l * 1.0e-6) (d * 1.0e-6 / 2.0)
+        else faxen (l * 1.0e-6) (d * 1.0e-6 / 2.0)) = m.dragCorrection →
+      sphereFriction η (d * 1.0e-6) = m.dragCoeff → η = m.viscosity →
+      1 < m.dragCorrection ∧ 0 < m.dragCoeff ∧ m.dragCoeff < m.drag ∧
+        m.dragCoeff = 3 * Real.pi * m.viscosity * (d * 1e-6) := by
+    intro η hη hd hl2 hcorr hdrag hvisc
+    have hR : (0:ℝ) < d * 1e-6 / 2 := by linarith
+    have hRl : d * 1e-6 / 2 ≤ l * 1e-6 := by linarith
+    have hz : isZero l = false := by rw [isZero_real]; simp; linarith
+    have hgt : 1 < m.dragCorrection := by
+      rw [← hcorr, hz]
+      simp only [Bool.false_eq_true, if_false]
+      cases ax with
+      | true =>
+        have := brenner_gt_one (l * 1e-6) (d * 1e-6 / 2) hR (by have := hax rfl; linarith)
+        simp only [if_true]; norm_num at this ⊢; exact this
+      | false =>
+        have := faxen_gt_one (l * 1e-6) (d * 1e-6 / 2) hR hRl
+        simp only [Bool.false_eq_true, if_false]; norm_num at this ⊢; exact this
+    obtain ⟨a1, a2, a3⟩ := wall_arith η d m.dragCorrection hη hd hgt
+    have e : sphereFriction η (d * 10e-7) = m.dragCoeff := by rw [← hdrag]
+    rw [e] at a1 a2 a3
+    exact ⟨hgt, a1, a2, by rw [a3, hvisc]⟩
+  cases visc with
+  | none =>
+    simp only at h
+    split_ifs at h
+    all_goals (cases h)
+    all_goals
+      have hd : (0.01:ℝ) ≤ d := by have := ‹¬d < 10e-3›; norm_num at this ⊢; exact this
+      have hl2 : d / 2 ≤ l := by have := ‹¬l < d / 2.0›; norm_num at this ⊢; exact this
+      have hT : -273.15 < T := by
+        have := ‹¬(!(decide (5.0 < T) && decide (T < 90.0))) = true›
+        have h5 : (5.0:ℝ) < T := by
+          by_contra hc
+          exact this (by simp [hc])
+        norm_num at h5; linarith
+      exact key (viscosityWater T) (viscosity_water_pos T hT) hd hl2 (by simp [*]) rfl rfl
+  | some v =>
+    simp only at h
+    split_ifs at h
+    all_goals (cases h)
+    all_goals
+      have hd : (0.01:ℝ) ≤ d := by have := ‹¬d < 10e-3›; norm_num at this ⊢; exact this
+      have hl2 : d / 2 ≤ l := by have := ‹¬l < d / 2.0›; norm_num at this ⊢; exact this
+      have hv : 0 < v := by have := ‹¬decide (v ≤ 3e-4) = true›; simp only [decide_eq_true_eq] at this; norm_num at this; linarith
+      exact key v hv hd hl2 (by simp [*]) rfl rfl
+
+
+/-- a 1 µm bead 1 µm above the surface in a 1 mPa·s medium passes the validation (so the theorem is not vacuous) -/
+example : ∃ m : Passive ℝ,
+    Passive.init ⟨1, some 1e-3, 20, false, some 1, none, 1060, false, false⟩ = .ok m ∧ 1 < m.dragCorrection := by
+  have h : ∃ m : Passive ℝ, Passive.init ⟨1, some 1e-3, 20, false, some 1, none, 1060, false, false⟩ = .ok m := by
+    unfold Passive.init
+    simp only [RealLike.lt, RealLike.le, isZero_real]
+    norm_num
+  obtain ⟨m, hm⟩ := h
+  exact ⟨m, hm, (passive_init_wall_drag_exceeds_bulk _ m 1 hm rfl rfl (by simp)).1⟩
+
+/-- the hypothesis on the axial factor is necessary: at contact (`l = d/2`, which the validation lets through) the
+    Brenner denominator vanishes — the factor is not a number above one there (kernel-checked witness) -/
+example : brennerDen (1 : ℝ) = 0 ∧ ¬ 1 < brenner (1 : ℝ) 1 := by
+  have h : brennerDen (1 : ℝ) = 0 := by rw [brennerDen_real]; unfold brennerP; norm_num
+  refine ⟨h, ?_⟩
+  simp only [brenner]
+  have : ((1:ℝ) / 1) = 1 := by norm_num
+  rw [this, h]; norm_num
+
+/-! ### Stimson–Jeffery: bispherical coordinates, label symmetry, the summation loop -/
+
+/-- `to_curvilinear_coordinates` evaluates the published change of coordinates: for two separate spheres it returns
+    `a > 0`, `α > 0 > β` with `r₁ = a cosech α`, `r₂ = −a cosech β`, and the sphere centres `a coth α`, `a coth β`
+    a distance `d` apart (Stimson & Jeffery 1926, §3). -/
+theorem bispherical_coordinates_published (r1 r2 d : ℝ) (h1 : 0 < r1) (h2 : 0 < r2) (hd : r1 + r2 < d) :
+    ∃ a al be, toCurvilinear r1 r2 d = .ok (a, al, be) ∧ 0 < a ∧ 0 < al ∧ be < 0 ∧
+      a / Real.sinh al = r1 ∧ -a / Real.sinh be = r2 ∧
+      a * Real.cosh al / Real.sinh al - a * Real.cosh be / Real.sinh be = d := by
+  obtain ⟨a, al, be, h, ha, hal, hbe, e1, e2, e3⟩ := toCurvilinear_spec r1 r2 d h1 h2 hd
+  simp only [sinhE_real, coshE_real] at e1 e2 e3
+  exact ⟨a, al, be, h, ha, hal, hbe, e1, e2, e3⟩
+
+example : ∃ a al be, toCurvilinear (1:ℝ) 2 4 = .ok (a, al, be) ∧ 0 < a ∧ 0 < al ∧ be < 0 ∧
+    a / Real.sinh al = 1 ∧ -a / Real.sinh be = 2 ∧
+    a * Real.cosh al / Real.sinh al - a * Real.cosh be / Real.sinh be = 4 :=
+  bispherical_coordinates_published 1 2 4 (by norm_num) (by norm_num) (by norm_num)
+
+/-- Overlapping beads are refused (`ValueError`), never answered with a number. -/
+theorem stimson_refuses_overlap (r1 r2 d : ℝ) (N : ℕ) (h : d < r1 + r2) : stimson r1 r2 d N = .error .value := by
+  simp [stimson, toCurvilinear, RealLike.lt, h]
+
+example : stimson (1:ℝ) 1 1.9 100000 = .error .value := stimson_refuses_overlap 1 1 1.9 _ (by norm_num)
+
+/-- The factor of a bead does not depend on which argument it is: with the labels exchanged the code's series gives
+    the same two numbers, exchanged — exactly (same summands, same stopping index), for all arguments. -/
+theorem stimson_label_swap (r1 r2 d : ℝ) (N : ℕ) : stimson r2 r1 d N = (stimson r1 r2 d N).map Prod.swap :=
+  stimson_swap r1 r2 d N
+
+/-- The summation loop computes the two series of Stimson & Jeffery truncated at the first summand that is below the
+    tolerance for BOTH beads (or after `max_summands`): independent specification as `Finset` sums, together with the
+    characterisation of the stopping index `k` (no earlier summand was small for both, the last one is — unless the
+    budget ran out). -/
+theorem stimson_sum_is_truncated_series (a m p tol1 tol2 : ℝ) (maxN n : ℕ) (c1 c2 : ℝ) :
+    ∃ k, k ≤ maxN ∧
+      stimsonLoop a m p tol1 tol2 maxN n c1 c2 =
+        (c1 + ∑ i ∈ Finset.range k, (stimsonTerm a m p (n + i)).1,
+         c2 + ∑ i ∈ Finset.range k, (stimsonTerm a m p (n + i)).2) ∧
+      (∀ i, i + 1 < k →
+        ¬ (|(stimsonTerm a m p (n + i)).1| < tol1 ∧ |(stimsonTerm a m p (n + i)).2| < tol2)) ∧
+      (k < maxN → 0 < k ∧ |(stimsonTerm a m p (n + (k - 1))).1| < tol1 ∧
+        |(stimsonTerm a m p (n + (k - 1))).2| < tol2) :=
+  stimsonLoop_spec a m p tol1 tol2 maxN n c1 c2
+
+/-! ### The hydrodynamic model near a surface at low frequency -/
+
+/-- Near a surface the complex drag `γ(f)/γ₀` tends, as `f → 0⁺`, to the real number `1 / (1 − 9R/(16 l))`: the
+    zero-frequency wall correction the model converts bulk drag to local drag with. -/
+theorem hydro_surface_low_frequency_limit (g rho R l : ℝ) (hg : 0 < g) (hrho : 0 < rho) (hR : 0 < R) (hl : R ≤ l) :
+    Tendsto (fun f => complexDrag f g rho R (some l)) (𝓝[≥] 0) (𝓝 (1 / (1 - 9 / 16 * (R / l)), 0)) := by
+  have hnu := frequencyNu_pos g rho R hg hrho hR
+  have h0 : Tendsto (surfaceDragNN (frequencyNu g rho R) R l) (𝓝[≥] 0) (𝓝 (1 / (1 - 9 / 16 * (R / l)), 0)) := by
+    have := (surfaceDragNN_continuousAt (frequencyNu g rho R) R l hR hl).tendsto.mono_left
+      (nhdsWithin_le_nhds (s := Set.Ici 0))
+    rwa [surfaceDragNN_zero _ R l hR hl] at this
+  apply h0.congr'
+  filter_upwards [self_mem_nhdsWithin] with f hf
+  exact (complexDrag_surface f g rho R l hf hnu).symm
+
+
+example : Tendsto (fun f => complexDrag f (1e-8:ℝ) 997 5e-7 (some 1e-6)) (𝓝[≥] 0) (𝓝 (1 / (1 - 9 / 16 * (5e-7 / 1e-6)), 0)) :=
+  hydro_surface_low_frequency_limit _ _ _ _ (by norm_num) (by norm_num) (by norm_num) (by norm_num)
+
+/-- Hence, near a surface too, the hydrodynamically correct spectrum tends at low frequency to a Lorentzian — the one
+    with the LOCAL drag `γ = γ₀ / (1 − 9R/(16 l))`, i.e. corner frequency `f_c/c` and diffusion constant `D/c`,
+    `c = 1 / (1 − 9R/(16 l))`: their ratio → 1 as `f → 0⁺`. -/
+theorem hydro_surface_tends_to_lorentzian (fc D g R rhoS rhoB l : ℝ) (hfc : 0 < fc) (hD : D ≠ 0) (hg : 0 < g)
+    (hR : 0 < R) (hrho : 0 < rhoS) (hl : R ≤ l) :
+    Tendsto (fun f => hydroPsd f fc D g R rhoS rhoB (some l) /
+        lorentzian f (fc / (1 / (1 - 9 / 16 * (R / l)))) (D / (1 / (1 - 9 / 16 * (R / l))))) (𝓝[≥] 0) (𝓝 1) := by
+  have hnu := frequencyNu_pos g rhoS R hg hrho hR
+  have hl0 : 0 < l := by linarith
+  have hq : 9 / 16 * (R / l) < 1 := by
+    have : R / l ≤ 1 := (div_le_one hl0).mpr hl
+    linarith
+  have hne : 1 - 9 / 16 * (R / l) ≠ 0 := by linarith
+  obtain ⟨c, hc⟩ : ∃ c : ℝ, c = 1 / (1 - 9 / 16 * (R / l)) := ⟨_, rfl⟩
+  have hc0 : 0 < c := by rw [hc]; apply one_div_pos.mpr; linarith
+  rw [← hc]
+  have hpi := Real.pi_pos
+  let G := surfaceDragNN (frequencyNu g rhoS R) R l
+  have hG : ContinuousAt G 0 := surfaceDragNN_continuousAt _ R l hR hl
+  have hG0 : G 0 = (c, 0) := by rw [hc]; exact surfaceDragNN_zero _ R l hR hl
+  have hG1 : ContinuousAt (fun f => (G f).1) 0 := continuousAt_fst.comp hG
+  have hG2 : ContinuousAt (fun f => (G f).2) 0 := continuousAt_snd.comp hG
+  let fm := frequencyM g R rhoB
+  let H : ℝ → ℝ := fun f => D / Real.pi ^ 2 * (G f).1 / ((fc + f * ((G f).2 - f / fm)) ^ 2 + (f * (G f).1) ^ 2)
+  let L : ℝ → ℝ := fun f => (D / c / Real.pi ^ 2) / (f ^ 2 + (fc / c) ^ 2)
+  have hH : ContinuousAt H 0 := by
+    apply ContinuousAt.div
+    · fun_prop
+    · fun_prop
+    · simp only [hG0]; norm_num; positivity
+  have hL : ContinuousAt L 0 := by
+    apply ContinuousAt.div
+    · fun_prop
+    · fun_prop
+    · norm_num; exact ⟨hfc.ne', hc0.ne'⟩
+  have hL0 : L 0 ≠ 0 := by
+    simp only [L]; norm_num; exact ⟨⟨hD, hc0.ne'⟩, hfc.ne', hc0.ne'⟩
+  have hHL : ContinuousAt (fun f => H f / L f) 0 := hH.div hL hL0
+  have e : H 0 / L 0 = 1 := by
+    simp only [H, L, hG0]; norm_num
+    field_simp
+  have h0 : Tendsto (fun f => H f / L f) (𝓝[≥] 0) (𝓝 1) := by
+    have := hHL.tendsto.mono_left (nhdsWithin_le_nhds (s := Set.Ici 0))
+    rwa [e] at this
+  apply h0.congr'
+  filter_upwards [self_mem_nhdsWithin] with f hf
+  simp only [H, L, G, fm]
+  rw [lorentzian_real]
+  simp only [hydroPsd, complexDrag_surface f g rhoS R l hf hnu, RealLike.pi]
+  ring
+
+
+example : Tendsto (fun f => hydroPsd f 500 2 (1e-8:ℝ) 5e-7 997 1060 (some 1e-6) /
+    lorentzian f (500 / (1 / (1 - 9 / 16 * (5e-7 / 1e-6)))) (2 / (1 / (1 - 9 / 16 * (5e-7 / 1e-6))))) (𝓝[≥] 0) (𝓝 1) :=
+  hydro_surface_tends_to_lorentzian _ _ _ _ _ _ _ (by norm_num) (by norm_num) (by norm_num) (by norm_num) (by norm_num)
+    (by norm_num)
+
+/-- The hydrodynamically correct spectrum near a surface is positive at every positive frequency, from contact
+    outwards (`l ≥ R`; the model is used for `l ≥ 1.5 R`). -/
+theorem hydro_surface_pos (f fc D g R rhoS rhoB l : ℝ) (hf : 0 < f) (hD : 0 < D) (hg : 0 < g) (hR : 0 < R)
+    (hrho : 0 < rhoS) (hl : R ≤ l) : 0 < hydroPsd f fc D g R rhoS rhoB (some l) := by
+  have hnu := frequencyNu_pos g rhoS R hg hrho hR
+  have hre := surfaceDragNN_re_pos (frequencyNu g rhoS R) R l f hnu hf.le hR hl
+  simp only [hydroPsd, complexDrag_surface f g rhoS R l hf.le hnu, RealLike.pi]
+  generalize surfaceDragNN (frequencyNu g rhoS R) R l f = G at *
+  have hpi := Real.pi_pos
+  have hb : 0 < (f * G.1) * (f * G.1) := by positivity
+  apply div_pos
+  · positivity
+  · have := mul_self_nonneg (fc + f * (G.2 - f / frequencyM g R rhoB))
+    linarith
+
+
+example : 0 < hydroPsd (1000:ℝ) 500 2 1e-8 5e-7 997 1060 (some 1e-6) :=
+  hydro_surface_pos _ _ _ _ _ _ _ _ (by norm_num) (by norm_num) (by norm_num) (by norm_num) (by norm_num) (by norm_num)
+
+/-! ### NaCl solutions: temperature, and the molarity ↔ molality conversion -/
+
+/-- Kestin Eq. 2–5: at a fixed molality the zero-pressure viscosity of the solution decreases strictly with temperature -/
+theorem salt_zero_pressure_viscosity_decreases_with_temperature (t₁ t₂ m : ℝ) (h0 : 20 ≤ t₁) (h12 : t₁ < t₂)
+    (h1 : t₂ ≤ 150) (hm0 : 0 ≤ m) (hm6 : m ≤ 6) : zeroPressureViscosity t₂ m < zeroPressureViscosity t₁ m := by
+  have hq := waterExp_strictAnti t₁ t₂ h0 h12 h1
+  have hB := one_add_B_pos m hm0 hm6
+  have hform : ∀ t : ℝ, zeroPressureViscosity t m = 1002 * (10:ℝ) ^ (waterExp t + saltExp (waterExp t) m) := by
+    intro t
+    rw [zpv_real, muW_real, mul_assoc, ← Real.rpow_add (by norm_num)]
+  rw [hform, hform]
+  apply mul_lt_mul_of_pos_left _ (by norm_num : (0:ℝ) < 1002)
+  apply (Real.rpow_lt_rpow_left_iff (by norm_num : (1:ℝ) < 10)).mpr
+  unfold saltExp
+  nlinarith
+
+
+example : zeroPressureViscosity (30:ℝ) 1 < zeroPressureViscosity (25:ℝ) 1 :=
+  salt_zero_pressure_viscosity_decreases_with_temperature 25 30 1 (by norm_num) (by norm_num) (by norm_num)
+    (by norm_num) (by norm_num)
+
+/-- `molality_to_molarity` increases strictly with the molality: the conversion is one-to-one on the model's range -/
+theorem molality_to_molarity_increases (t p m₁ m₂ : ℝ) (ht0 : 20 ≤ t) (ht1 : t ≤ 150) (hp0 : 0 ≤ p) (hp1 : p ≤ 35)
+    (h0 : 0 ≤ m₁) (h12 : m₁ < m₂) (h6 : m₂ ≤ 6) : molalityToMolarity t m₁ p < molalityToMolarity t m₂ p := by
+  rw [molalityToMolarity_real, molalityToMolarity_real]
+  obtain ⟨r1, hr12⟩ := salt_density_increases_with_concentration t p m₁ m₂ ht0 ht1 hp0 hp1 h0 h12 h6
+  generalize saltDensity t m₁ p = ρ₁ at *
+  generalize saltDensity t m₂ p = ρ₂ at *
+  have r2 : 0 < ρ₂ := by linarith
+  have e : ∀ (m ρ : ℝ), 0 ≤ m → 0 < ρ → m / (1000 * (1 + 58.4428 * m * 1e-3) / ρ) = (m / (1000 + 58.4428 * m)) * ρ := by
+    intro m ρ hm hρ
+    have : (0:ℝ) < 1000 + 58.4428 * m := by positivity
+    field_simp
+    ring
+  rw [e m₁ ρ₁ h0 r1, e m₂ ρ₂ (by linarith) r2]
+  have hfrac : m₁ / (1000 + 58.4428 * m₁) < m₂ / (1000 + 58.4428 * m₂) := by
+    rw [div_lt_div_iff₀ (by positivity) (by nlinarith)]
+    nlinarith
+  have hf0 : 0 ≤ m₁ / (1000 + 58.4428 * m₁) := by positivity
+  calc m₁ / (1000 + 58.4428 * m₁) * ρ₁ ≤ m₁ / (1000 + 58.4428 * m₁) * ρ₂ :=
+        mul_le_mul_of_nonneg_left hr12.le hf0
+    _ < m₂ / (1000 + 58.4428 * m₂) * ρ₂ := mul_lt_mul_of_pos_right hfrac r2
+
+
+example : molalityToMolarity (25:ℝ) 1 0.101325 < molalityToMolarity (25:ℝ) 2 0.101325 :=
+  molality_to_molarity_increases 25 0.101325 1 2 (by norm_num) (by norm_num) (by norm_num) (by norm_num) (by norm_num)
+    (by norm_num) (by norm_num)
+
+/-- The molarity → molality conversion of the public water functions is well posed: the molality a solution was made
+    with is a root of the residual handed to `brentq` (round trip), and on the model's range that root is the ONLY
+    one — two molalities in `[0, 6]` at which the residual of the same query vanishes are equal.  (With
+    `bisect_brackets_sign_change`: the bracketing iteration closes in on this root.) -/
+theorem molarity_to_molality_root_is_unique (t p : ℝ) (ht0 : 20 ≤ t) (ht1 : t ≤ 150) (hp0 : 0 ≤ p) (hp1 : p ≤ 35) :
+    (∀ m, 0 ≤ m → m ≤ 6 → molalityResidual t (molalityToMolarity t m p) p m = 0) ∧
+    (∀ c m m', 0 ≤ c → c ≤ 6 → 0 ≤ m → m ≤ 6 → 0 ≤ m' → m' ≤ 6 →
+      molalityResidual t c p m = 0 → molalityResidual t c p m' = 0 → m = m') := by
+  refine ⟨fun m h0 h6 => molalityResidual_round_trip t p m ht0 ht1 hp0 hp1 h0 h6, ?_⟩
+  intro c m m' hc0 hc6 h0 h6 h0' h6' hr hr'
+  have e := (molalityResidual_zero_iff t c p m ht0 ht1 hp0 hp1 hc0 hc6 h0 h6).mp hr
+  have e' := (molalityResidual_zero_iff t c p m' ht0 ht1 hp0 hp1 hc0 hc6 h0' h6').mp hr'
+  rcases lt_trichotomy m m' with h | h | h
+  · have := molality_to_molarity_increases t p m m' ht0 ht1 hp0 hp1 h0 h h6'
+    rw [e, e'] at this; exact absurd this (lt_irrefl _)
+  · exact h
+  · have := molality_to_molarity_increases t p m' m ht0 ht1 hp0 hp1 h0' h h6
+    rw [e, e'] at this; exact absurd this (lt_irrefl _)
+
+example : molalityResidual (25:ℝ) (molalityToMolarity 25 1 0.101325) 0.101325 1 = 0 :=
+  (molarity_to_molality_root_is_unique 25 0.101325 (by norm_num) (by norm_num) (by norm_num) (by norm_num)).1 1
+    (by norm_num) (by norm_num)
+
+/-- Small beads near a surface: at a fixed distance `l` to the surface and the bead's own Stokes drag `γ₀ = 3πη·(2R)`,
+    the hydrodynamically correct spectrum tends to the Lorentzian as `R → 0⁺`, at every frequency `f ≥ 0`. -/
+theorem hydro_surface_small_bead_limit (f fc D eta rhoS rhoB l : ℝ) (hf : 0 ≤ f) (hfc : 0 < fc) (hD : D ≠ 0)
+    (heta : 0 < eta) (hrho : 0 < rhoS) :
+    Tendsto (fun R => hydroPsd f fc D (sphereFriction eta (2 * R)) R rhoS rhoB (some l) / lorentzian f fc D)
+      (𝓝[>] 0) (𝓝 1) := by
+  have hpi := Real.pi_pos
+  let G := surfaceDragOfRadius (f * (Real.pi * rhoS) / eta) l
+  have hG : ContinuousAt G 0 := surfaceDragOfRadius_continuousAt _ l
+  have hG0 : G 0 = (1, 0) := surfaceDragOfRadius_zero _ l
+  have hG1 : ContinuousAt (fun R => (G R).1) 0 := continuousAt_fst.comp hG
+  have hG2 : ContinuousAt (fun R => (G R).2) 0 := continuousAt_snd.comp hG
+  let q : ℝ → ℝ := fun R => f * (4 * Real.pi * R ^ 2 * rhoB) / (9 * eta)
+  let H : ℝ → ℝ := fun R => D / Real.pi ^ 2 * (G R).1 / ((fc + f * ((G R).2 - q R)) ^ 2 + (f * (G R).1) ^ 2)
+  have hL0 : lorentzian f fc D ≠ 0 := by
+    rw [lorentzian_real]
+    have : 0 < f ^ 2 + fc ^ 2 := by positivity
+    positivity
+  have hH : ContinuousAt H 0 := by
+    apply ContinuousAt.div
+    · fun_prop
+    · fun_prop
+    · simp only [hG0, q]; norm_num; positivity
+  have hHL : ContinuousAt (fun R => H R / lorentzian f fc D) 0 := hH.div continuousAt_const hL0
+  have e : H 0 / lorentzian f fc D = 1 := by
+    rw [lorentzian_real]
+    simp only [H, q, hG0]
+    norm_num
+    have : f ^ 2 + fc ^ 2 ≠ 0 := by positivity
+    field_simp
+    ring
+  have h0 : Tendsto (fun R => H R / lorentzian f fc D) (𝓝[>] 0) (𝓝 1) := by
+    have := hHL.tendsto.mono_left (nhdsWithin_le_nhds (s := Set.Ioi 0))
+    rwa [e] at this
+  apply h0.congr'
+  filter_upwards [self_mem_nhdsWithin] with R hR
+  have hR' : 0 < R := hR
+  have hnueq := frequencyNu_stokes eta rhoS R heta hrho hR'
+  have hnu : 0 < frequencyNu (sphereFriction eta (2 * R)) rhoS R := by rw [hnueq]; positivity
+  simp only [hydroPsd, complexDrag_surface f _ rhoS R l hf hnu, hnueq, frequencyM_stokes eta rhoB R hR',
+    surfaceDragNN_of_radius f eta rhoS l R hf heta hrho hR', RealLike.pi, H, q, G]
+  generalize surfaceDragOfRadius (f * (Real.pi * rhoS) / eta) l R = GR
+  have hq : f / (9 * eta / (4 * Real.pi * R ^ 2 * rhoB)) = f * (4 * Real.pi * R ^ 2 * rhoB) / (9 * eta) := by
+    by_cases hb : rhoB = 0
+    · subst hb; simp
+    · field_simp
+  rw [hq]
+  ring
+
+
+example : Tendsto (fun R => hydroPsd 1000 500 2 (sphereFriction (1e-3:ℝ) (2 * R)) R 997 1060 (some 1e-6) / lorentzian 1000 500 2)
+    (𝓝[>] 0) (𝓝 1) :=
+  hydro_surface_small_bead_limit _ _ _ _ _ _ _ (by norm_num) (by norm_num) (by norm_num) (by norm_num) (by norm_num)
+
+/-- Asked in MOLARITY (what the public `viscosity_of_water` / `density_of_water` take): a larger molarity has a larger
+    molality root, hence a larger viscosity and a larger density — for the exact roots of the residual the code solves. -/
+theorem water_functions_increase_with_molarity (t p c₁ c₂ m₁ m₂ : ℝ) (ht0 : 20 ≤ t) (ht1 : t ≤ 150) (hp0 : 0 ≤ p)
+    (hp1 : p ≤ 35) (hc0 : 0 ≤ c₁) (hc12 : c₁ < c₂) (hc6 : c₂ ≤ 6) (h1 : 0 ≤ m₁ ∧ m₁ ≤ 6) (h2 : 0 ≤ m₂ ∧ m₂ ≤ 6)
+    (hr1 : molalityResidual t c₁ p m₁ = 0) (hr2 : molalityResidual t c₂ p m₂ = 0) :
+    m₁ < m₂ ∧ saltViscosity t m₁ p < saltViscosity t m₂ p ∧ saltDensity t m₁ p < saltDensity t m₂ p := by
+  have e1 := (molalityResidual_zero_iff t c₁ p m₁ ht0 ht1 hp0 hp1 hc0 (by linarith) h1.1 h1.2).mp hr1
+  have e2 := (molalityResidual_zero_iff t c₂ p m₂ ht0 ht1 hp0 hp1 (by linarith) hc6 h2.1 h2.2).mp hr2
+  have hm : m₁ < m₂ := by
+    by_contra hc
+    have hle : m₂ ≤ m₁ := not_lt.mp hc
+    rcases eq_or_lt_of_le hle with h | h
+    · rw [h, e1] at e2; linarith
+    · have := molality_to_molarity_increases t p m₂ m₁ ht0 ht1 hp0 hp1 h2.1 h h1.2
+      rw [e1, e2] at this; linarith
+  exact ⟨hm, salt_viscosity_increases_with_concentration t p m₁ m₂ ht0 ht1 hp0 hp1 h1.1 hm h2.2,
+    (salt_density_increases_with_concentration t p m₁ m₂ ht0 ht1 hp0 hp1 h1.1 hm h2.2).2⟩
+
+/-- non-vacuity: the molarities of 1 and 2 mol/kg solutions at 25 °C have exactly these molalities as roots -/
+example : saltViscosity (25:ℝ) 1 0.101325 < saltViscosity (25:ℝ) 2 0.101325 := by
+  have hv := molarity_to_molality_root_is_unique 25 0.101325 (by norm_num) (by norm_num) (by norm_num) (by norm_num)
+  have hmono := molality_to_molarity_increases 25 0.101325 1 2 (by norm_num) (by norm_num) (by norm_num) (by norm_num)
+    (by norm_num) (by norm_num) (by norm_num)
+  have hpos := molality_to_molarity_increases 25 0.101325 0 1 (by norm_num) (by norm_num) (by norm_num) (by norm_num)
+    (by norm_num) (by norm_num) (by norm_num)
+  have h0 : molalityToMolarity (25:ℝ) 0 0.101325 = 0 := by simp [molalityToMolarity]
+  have h6 : molalityToMolarity (25:ℝ) 2 0.101325 ≤ 6 := by
+    obtain ⟨lo, hi⟩ := saltDensity_bounds 25 2 0.101325 (by norm_num) (by norm_num) (by norm_num) (by norm_num)
+      (by norm_num) (by norm_num)
+    rw [molalityToMolarity_real]
+    have hρ : 0 < saltDensity (25:ℝ) 2 0.101325 := by linarith
+    rw [div_div_eq_mul_div, div_le_iff₀ (by norm_num)]
+    linarith
+  exact (water_functions_increase_with_molarity 25 0.101325 _ _ 1 2 (by norm_num) (by norm_num) (by norm_num)
+    (by norm_num) (by rw [← h0]; exact hpos.le) hmono h6 ⟨by norm_num, by norm_num⟩ ⟨by norm_num, by norm_num⟩
+    (hv.1 1 (by norm_num) (by norm_num)) (hv.1 2 (by norm_num) (by norm_num))).2.1
+
+
+/-! ### The public water functions and the constructor: what they return is in range -/
+
+/-- What the public `density_of_water` returns (when it returns) is the density of the correlation at a molality in
+    `[0, 6]` inside the validity range — a number between 400 and 2000 kg/m³ — for every non-negative pressure. -/
+theorem density_of_water_in_range (T c ρ : ℝ) (p : Option ℝ) (hp : ∀ x, p = some x → 0 ≤ x)
+    (h : densityOfWater T c p = .ok ρ) : 400 < ρ ∧ ρ < 2000 := by
+  unfold densityOfWater at h
+  obtain ⟨P, hP⟩ : ∃ P : ℝ, P = p.getD 0.101325 := ⟨_, rfl⟩
+  have hP0 : 0 ≤ P := by
+    cases p with
+    | none => rw [hP]; simp; norm_num
+    | some x => rw [hP]; simpa using hp x rfl
+  rw [← hP] at h
+  dsimp only at h
+  cases hm : molarityToMolality T c P with
+  | error e => rw [hm] at h; cases h
+  | ok m =>
+    rw [hm] at h
+    simp only [Bind.bind, Except.bind] at h
+    obtain ⟨m0, m6⟩ := molarityToMolality_mem T c P m hm
+    split_ifs at h with hv
+    cases h
+    obtain ⟨⟨t0, t1⟩, p1, _⟩ := (saltValid_real T m P).mp hv
+    exact saltDensity_bounds T m P t0 t1.le hP0 p1 m0 m6
+
+example : ∃ ρ, densityOfWater (25:ℝ) 0 none = .ok ρ ∧ 400 < ρ ∧ ρ < 2000 := by
+  have hv : saltValid (25:ℝ) 0.0 0.101325 = true := by rw [saltValid_real]; norm_num
+  have h : densityOfWater (25:ℝ) 0 none = .ok (saltDensity 25 0.0 0.101325) := by
+    simp only [densityOfWater, Option.getD_none, molarityToMolality_zero, Bind.bind, Except.bind, hv, if_true]
+  exact ⟨_, h, density_of_water_in_range 25 0 _ none (by simp) h⟩
+
+
+/-- What the public `viscosity_of_water` returns (when it returns a number) is positive — the Huber value for plain
+    water, the Kestin value at a molality in `[0, 6]` inside the validity range otherwise — for every non-negative
+    pressure. -/
+theorem viscosity_of_water_positive (T v : ℝ) (c p : Option ℝ) (hp : ∀ x, p = some x → 0 ≤ x)
+    (h : viscosityOfWater T c p = some (.ok v)) : 0 < v := by
+  unfold viscosityOfWater at h
+  split_ifs at h with hsalt
+  · obtain ⟨P, hP⟩ : ∃ P : ℝ, P = p.getD 0.101325 := ⟨_, rfl⟩
+    have hP0 : 0 ≤ P := by
+      cases p with
+      | none => rw [hP]; simp; norm_num
+      | some x => rw [hP]; simpa using hp x rfl
+    dsimp only at h
+    rw [← hP] at h
+    simp only [Option.some.injEq] at h
+    cases hm : molarityToMolality T (c.getD 0.0) P with
+    | error e => rw [hm] at h; cases h
+    | ok m =>
+      rw [hm] at h
+      simp only [Bind.bind, Except.bind] at h
+      obtain ⟨m0, m6⟩ := molarityToMolality_mem T _ P m hm
+      split_ifs at h with hv
+      cases h
+      obtain ⟨⟨t0, t1⟩, p1, _⟩ := (saltValid_real T m P).mp hv
+      exact saltViscosity_pos T m P t0 t1.le hP0 p1 m0 m6
+  · rename_i hT
+    simp only [Option.some.injEq] at h
+    cases h
+    simp only [RealLike.le, RealLike.lt, Bool.and_eq_true, decide_eq_true_eq] at hT
+    exact viscosity_water_pos T (by have := hT.1; norm_num at this; linarith)
+  · simp at h
+
+example : ∃ v, viscosityOfWater (25:ℝ) none none = some (.ok v) ∧ 0 < v := by
+  have h : viscosityOfWater (25:ℝ) none none = some (.ok (viscosityWater 25)) := by
+    simp [viscosityOfWater, truthy, RealLike.le, RealLike.lt]; norm_num
+  exact ⟨_, h, viscosity_of_water_positive 25 _ none none (by simp) h⟩
+
+theorem hydro_pos_any (f fc D g R rhoS rhoB : ℝ) (l : Option ℝ) (hf : 0 < f) (hD : 0 < D) (hg : 0 < g) (hR : 0 < R)
+    (hrho : 0 < rhoS) (hl : ∀ x, l = some x → R ≤ x) : 0 < hydroPsd f fc D g R rhoS rhoB l := by
+  cases l with
+  | none => exact hydro_bulk_pos f fc D g R rhoS rhoB hf hD hg hR hrho
+  | some x => exact hydro_surface_pos f fc D g R rhoS rhoB x hf hD hg hR hrho (hl x rfl)
+
+theorem sphereFriction_pos (η d : ℝ) (hη : 0 < η) (hd : 0 < d) : 0 < sphereFriction η d := by
+  rw [sphereFriction_real]; have := Real.pi_pos; positivity
+
+/-- A model `PassiveCalibrationModel.__init__` returns with the hydrodynamic correction has a positive physical
+    spectrum at every positive frequency, in bulk and near a surface: the validation chain establishes every
+    hypothesis of `hydro_bulk_pos` / `hydro_surface_pos` (diameter ≥ 0.01 µm, positive viscosity and densities,
+    distance ≥ 1.5 radii). -/
+theorem passive_init_hydro_spectrum_pos (c : PassiveCfg ℝ) (m : Passive ℝ) (h : Passive.init c = .ok m)
+    (hh : c.hydro = true) (f fc D : ℝ) (hf : 0 < f) (hD : 0 < D) : 0 < m.physical f fc D := by
+  obtain ⟨d, visc, T, hydro, dist, rhoS, rhoB, fast, ax⟩ := c
+  simp only at hh
+  subst hh
+  unfold Passive.init at h
+  simp only [RealLike.lt, RealLike.le, if_true, decide_eq_true_eq] at h
+  have key : ∀ (η ρ : ℝ), 0 < η → 0 < ρ → (0.01:ℝ) ≤ d → (∀ x, dist = some x → d / 2 ≤ x) →
+      0 < hydroPsd f fc D (sphereFriction η (d * 1.0e-6)) (d * 1.0e-6 / 2.0) ρ rhoB (dist.map (· * 1.0e-6)) := by
+    intro η ρ hη hρ hd hx
+    apply hydro_pos_any f fc D _ _ ρ rhoB _ hf hD (sphereFriction_pos η _ hη (by norm_num; linarith))
+      (by norm_num; linarith) hρ
+    intro x hx'
+    cases dist with
+    | none => simp at hx'
+    | some l =>
+      simp only [Option.map_some, Option.some.injEq] at hx'
+      have := hx l rfl
+      rw [← hx']; norm_num; linarith
+  rcases visc with _ | v <;> rcases dist with _ | l <;> rcases rhoS with _ | rs <;> simp only at h <;>
+    split_ifs at h <;> cases h <;> simp only [Passive.physical, if_true]
+  all_goals
+    have hd : (0.01:ℝ) ≤ d := by have := ‹¬d < 10e-3›; norm_num at this ⊢; exact this
+    refine key _ _ ?_ ?_ hd ?_
+    · first
+      | (have hv := ‹¬decide (v ≤ 3e-4) = true›
+         simp only [decide_eq_true_eq] at hv; norm_num at hv; linarith)
+      | (have ht := ‹¬(!(decide (5.0 < T) && decide (T < 90.0))) = true›
+         have h5 : (5.0:ℝ) < T := by
+           by_contra hc
+           exact ht (by simp [hc])
+         exact viscosity_water_pos T (by norm_num at h5; linarith))
+    · first
+      | (have hr := ‹¬decide (rs < 100.0) = true›
+         simp only [decide_eq_true_eq] at hr; norm_num at hr; linarith)
+      | norm_num
+    · first
+      | (have hl := ‹¬decide (l < d / 2.0) = true›
+         simp only [decide_eq_true_eq] at hl
+         intro x hx
+         simp only [Option.some.injEq] at hx
+         rw [← hx]; norm_num at hl ⊢; exact hl)
+      | (intro x hx; simp at hx)
+
+
+/-- a 1 µm bead 1 µm above the surface with the hydrodynamic correction passes the validation -/
+example : ∃ m : Passive ℝ,
+    Passive.init ⟨1, some 1e-3, 20, true, some 1, none, 1060, false, false⟩ = .ok m ∧ 0 < m.physical 1000 500 2 := by
+  have h : ∃ m : Passive ℝ, Passive.init ⟨1, some 1e-3, 20, true, some 1, none, 1060, false, false⟩ = .ok m := by
+    unfold Passive.init
+    simp only [RealLike.lt, RealLike.le, isZero_real]
+    norm_num
+  obtain ⟨m, hm⟩ := h
+  exact ⟨m, hm, passive_init_hydro_spectrum_pos _ m hm rfl _ _ _ (by norm_num) (by norm_num)⟩
 
 end Verif.C20
